@@ -40,7 +40,8 @@ CHECKS = {
         engine="hypothesis/ctypes shim + libFuzzer fz_parse",
         text="Round-trip and fixed-point relations checked on generated trees (arbitrary string bytes, doubles from boundary pools incl. the "
              "top of the range) for Print/PrintUnformatted/PrintBuffered(14 prebuffer sizes)/PrintPreallocated under custom hooks and the "
-             "default allocator; plus single-number sweeps in C and the fixed point on fuzzer-made trees. Exploration.",
+             "default allocator; print histories (constant keys at re-used addresses), strings and texts up to several MB, ownership flags; plus "
+             "single-number sweeps in C and the fixed point on fuzzer-made trees. Exploration.",
         note="Trusted: the dumper, Python arithmetic for the tolerance rule. Only '.' as decimal point (C locale).",
         ref="3 C04"),
     "C05": dict(
@@ -55,7 +56,8 @@ CHECKS = {
         text="Generated call histories (<= 60 late-bound ops over all construction/edit/query calls incl. NULL arguments, out-of-range indices, "
              "case-variant and aliasing keys, self-insertion, references, constant keys, bulk constructors) are executed by the library and by "
              "an ordered-list model side by side; after every step every live tree's canonical dump (order, keys, values, flags, next/prev/tail "
-             "links) and every return value must match. Exploration over histories.",
+             "links) and every return value must match; plus edit histories on containers of up to 100000 items with the whole value "
+             "sequence compared after every step. Exploration over histories.",
         note="Trusted: the Python model (written from the property and the header), the dumper. Not generated: insert beyond the end, key-less members, editing through references.",
         ref="3 C06"),
     "C07": dict(
@@ -96,7 +98,8 @@ CHECKS = {
         text="Duplicate of generated trees (references, constant keys, stale keys) is checked for equality (Compare, text), absence of sibling "
              "links and reference bits, pointer-disjointness from every live tree, shared constant keys; a second generated edit/delete program "
              "then runs with source and copy compared to the model after every step. Spines of LIMIT-1..LIMIT+3 containers (with and without "
-             "siblings) and three cyclic shapes must be accepted/refused as stated without leaks or source modification. Exploration.",
+             "siblings) and three cyclic shapes must be accepted/refused as stated without leaks or source modification; containers of "
+             "10^4..4*10^5 items must be copied completely and independently. Exploration.",
         note="N = CJSON_CIRCULAR_LIMIT+1 containers gets no verdict (statement ambiguous by one). Trusted: model, ledger, ASan.",
         ref="3 C11"),
     "C12": dict(
@@ -127,7 +130,8 @@ CHECKS = {
         technique="differential testing (Hypothesis documents x pointer strings: true pointers, single edits, free strings) against an RFC 6901 reference resolver; exhaustive (root,node) pairs per document for construction",
         text="GetPointerCaseSensitive must return exactly the node the Python RFC 6901 resolver designates (by position) or NULL, for true "
              "pointers, one-edit corruptions (digits/letters/sign/leading zero/escape swaps/2^64+k/case flips) and free strings over the "
-             "pointer alphabet, on documents with awkward keys and arrays up to 64 elements; FindPointerFromObjectTo is checked for every "
+             "pointer alphabet, EVERY single-byte token and a third of all two-byte tokens on arrays of up to 260 elements, each lookup under "
+             "errno 0 / ERANGE / EINVAL, on documents with awkward keys; chains of 998..3000 levels; FindPointerFromObjectTo is checked for every "
              "(container, node) pair of each document: exact escaped text, inverse, allocator. Exploration.",
         note="Trusted: verif/rfc.py (validated on the 132 conformance cases shipped with the repository). Keys distinct per object.",
         ref="3 C15"),
@@ -145,21 +149,24 @@ CHECKS = {
         technique="property-based round-trip testing (Hypothesis pairs: edits of a document or independent) with an independent RFC 6902 evaluator and the library's own applier",
         text="The generated patch must be a well-formed add/remove/replace array, transform 'from' into 'to' under the Python reference and "
              "under the library itself, be empty iff the documents are equal, and leave both inputs equal in value, structurally sound and "
-             "still accepting appends in every container. Exploration.",
+             "still accepting appends in every container; then the inputs are edited through the core API and a second patch is generated and "
+             "judged the same way. Numbers include both ends of the double range; documents to 1500 levels; every composed path length 1..300. Exploration.",
         note="Trusted: verif/rfc.py, model.eq_set. Numbers on a 1/8 grid so tolerance and exact equality coincide.",
         ref="3 C17"),
     "C18": dict(
         technique="differential testing against an RFC 7396 reference (Hypothesis (target, patch) and (from, to) pairs, object-heavy with case-variant keys)",
         text="MergePatchCaseSensitive must equal the Python RFC 7396 reference on independent and target-derived patches (nulls at depth, "
              "non-object patches/targets); the generated merge patch applied by the reference and by the library must turn 'from' into 'to' "
-             "(no null object members in 'to'), be NULL only when nothing changes, and leave both inputs intact and usable. Exploration.",
+             "(no null object members in 'to'), be NULL only when nothing changes, and leave both inputs intact and usable; a second generation "
+             "after editing the inputs; object chains to 1500 levels; patch values too deep to be copied (memory safety only). Exploration.",
         note="Trusted: verif/rfc.py (RFC 7396 appendix examples pass). Keys distinct per object.",
         ref="3 C18"),
     "C19": dict(
         technique="model-based stateful testing: sort operations and internally sorting utilities interleaved with C06 edit programs, model re-synchronised by node identity",
         text="Each SortObject[CaseSensitive] call on any object of any live tree must give non-decreasing keys over exactly the same member "
              "nodes and be idempotent; after it and after patch 'test', GeneratePatches, GenerateMergePatch, every live tree must equal the "
-             "list/map model after every further append/insert/detach/replace/print/delete. Exploration over histories.",
+             "list/map model after every further append/insert/detach/replace/print/delete; objects of 1000..400000 members in seven key orders "
+             "are sorted (directly or through a utility) and checked natively for order, count, chain, tail link, append, idempotence. Exploration over histories.",
         note="Order among equal keys is not asserted (no stability claim). Trusted: the C06 model.",
         ref="3 C19"),
     "C20": dict(
